@@ -5,8 +5,8 @@
 // x headers x body) are enumerated - every dimension fully, all pairs inside
 // the request triple and the response triple in the quick tier, the full
 // products in the thorough tier - and compared at the stub upstream and at
-// the client. Also: every gateway-terminated case, and (for C05) that every way
-// a proxied request can end gives its max-in-flight slot back.
+// the client. Also: every gateway-terminated case. (That every way a proxied
+// request can end gives its max-in-flight slot back is C05's business: h/exitpaths.)
 package main
 
 import (
@@ -475,7 +475,7 @@ func upgrades(c *ev.Check) {
 			continue
 		}
 		_, _ = conn.Write([]byte(raw))
-		_ = conn.SetReadDeadline(time.Now().Add(3 * time.Second))
+		_ = conn.SetReadDeadline(time.Now().Add(20 * time.Second)) // generous: a verdict must not hinge on scheduling
 		head := readUntil(conn, "\r\n\r\n")
 		_, _ = conn.Write([]byte("ping-through-the-gateway"))
 		echo := readUntil(conn, "gateway")
@@ -541,112 +541,6 @@ func readUntil(conn net.Conn, marker string) string {
 		}
 	}
 	return string(out)
-}
-
-// ------------------------------------------------------------------ exit paths give the slot back (C05)
-
-func exitPaths(c *ev.Check) {
-	type path struct {
-		name string
-		run  func(r *e2e.Rig, up *e2e.Upstream)
-	}
-	hang := make(chan struct{})
-	paths := []path{
-		{"success", func(r *e2e.Rig, up *e2e.Upstream) { _, _, _ = r.Do("GET", "x", "/api/v1/pods", nil, nil) }},
-		{"upstream answers 500", func(r *e2e.Rig, up *e2e.Upstream) {
-			up.Respond = func(w http.ResponseWriter, _ *http.Request, _ *e2e.Captured) { w.WriteHeader(500) }
-			_, _, _ = r.Do("GET", "x", "/api/v1/pods", nil, nil)
-		}},
-		{"upstream closes the connection without answering", func(r *e2e.Rig, up *e2e.Upstream) {
-			up.Respond = func(w http.ResponseWriter, _ *http.Request, _ *e2e.Captured) {
-				conn, _, _ := w.(http.Hijacker).Hijack()
-				conn.Close()
-			}
-			_, _, _ = r.Do("GET", "x", "/api/v1/pods", nil, nil)
-		}},
-		{"upstream dies in the middle of the body (reverse proxy aborts with a panic)", func(r *e2e.Rig, up *e2e.Upstream) {
-			up.Respond = func(w http.ResponseWriter, _ *http.Request, _ *e2e.Captured) {
-				w.Header().Set("Content-Length", "100000")
-				w.WriteHeader(200)
-				_, _ = w.Write(bytes.Repeat([]byte("x"), 1000))
-				w.(http.Flusher).Flush()
-				conn, _, _ := w.(http.Hijacker).Hijack()
-				conn.Close()
-			}
-			_, _, _ = r.Do("GET", "x", "/api/v1/pods", nil, nil)
-		}},
-		{"client aborts while the upstream is still working", func(r *e2e.Rig, up *e2e.Upstream) {
-			up.Respond = func(w http.ResponseWriter, req *http.Request, _ *e2e.Captured) {
-				select {
-				case <-req.Context().Done():
-				case <-hang:
-				case <-time.After(5 * time.Second):
-				}
-			}
-			_, _ = r.DoRaw("GET /api/v1/pods HTTP/1.1\r\nHost: x\r\n\r\n", 150*time.Millisecond)
-			time.Sleep(100 * time.Millisecond)
-		}},
-		{"client aborts a streaming (watch) response", func(r *e2e.Rig, up *e2e.Upstream) {
-			up.Respond = func(w http.ResponseWriter, req *http.Request, _ *e2e.Captured) {
-				w.WriteHeader(200)
-				_, _ = w.Write([]byte("{}\n"))
-				w.(http.Flusher).Flush()
-				select {
-				case <-req.Context().Done():
-				case <-time.After(5 * time.Second):
-				}
-			}
-			_, _ = r.DoRaw("GET /api/v1/pods?watch=true HTTP/1.1\r\nHost: x\r\n\r\n", 150*time.Millisecond)
-			time.Sleep(100 * time.Millisecond)
-		}},
-		{"no ready endpoint", func(r *e2e.Rig, up *e2e.Upstream) {
-			ci, _ := r.Manager.Get("x")
-			for _, ep := range ci.AllEndpoints() {
-				e, _ := ci.Endpoints.Load(ep)
-				e.UpdateStatus(false, "x", "")
-				defer e.UpdateStatus(true, "", "")
-			}
-			_, _, _ = r.Do("GET", "x", "/api/v1/pods", nil, nil)
-		}},
-		{"connection refused", func(r *e2e.Rig, up *e2e.Upstream) {
-			up.Server.Close() // nothing listens on the endpoint any more
-			_, _, _ = r.Do("GET", "x", "/api/v1/pods", nil, nil)
-		}},
-	}
-	for _, p := range paths {
-		r := e2e.New()
-		up := e2e.NewUpstream("x1")
-		o := e2e.ClusterObject("x", up)
-		o.Spec.FlowControl.Schemas = []proxyv1alpha1.FlowControlSchema{{Name: "one", FlowControlSchemaConfiguration: proxyv1alpha1.FlowControlSchemaConfiguration{MaxRequestsInflight: &proxyv1alpha1.MaxRequestsInflightFlowControlSchema{Max: 1}}}}
-		o.Spec.DispatchPolicies[0].FlowControlSchemaName = "one"
-		ci := r.AddCluster(o, func(*clusters.EndpointInfo) bool { return true }) // no background probe flips the health set by the case
-		c.Add("exit_path_cases", 1)
-		p.run(r, up)
-		// the request has ended: its slot must be free again, and only once (limit 1: one admitted, the second refused)
-		deadline := time.Now().Add(3 * time.Second)
-		fc := ci.GetFlowSchema("one")
-		free := false
-		for time.Now().Before(deadline) {
-			if fc.TryAcquire() {
-				free = true
-				break
-			}
-			time.Sleep(10 * time.Millisecond)
-		}
-		if !free {
-			c.Violation("exit-path/slot-leaked", fmt.Sprintf("after a request that ended by [%s] the max-in-flight slot (limit 1) was not given back within 3 s", p.name), p.name)
-		} else {
-			if fc.TryAcquire() {
-				c.Violation("exit-path/slot-returned-twice", fmt.Sprintf("after a request that ended by [%s] two requests are admitted under limit 1", p.name), p.name)
-				fc.Release()
-			}
-			fc.Release()
-		}
-		c.Outcome("exit_paths", p.name)
-		r.Close()
-		up.Close()
-	}
-	close(hang)
 }
 
 func main() {
@@ -748,7 +642,6 @@ func main() {
 		}})
 	}
 	tasks = append(tasks, ev.Task{Name: "terminated", Run: func() { terminated(c) }})
-	tasks = append(tasks, ev.Task{Name: "exit-paths", Run: func() { exitPaths(c) }})
 	tasks = append(tasks, ev.Task{Name: "upgrades", Run: func() { upgrades(c) }})
 	c.RunTasks(tasks)
 	names := []string{}
@@ -757,8 +650,8 @@ func main() {
 	}
 	sort.Strings(names)
 	c.Finish(map[string]interface{}{
-		"evaluations":         c.Counter("request_cases") + c.Counter("response_cases") + c.Counter("terminated_cases") + c.Counter("exit_path_cases") + c.Counter("upgrade_cases"),
-		"distinct_nontrivial": c.DistinctCount("request_shapes") + c.DistinctCount("response_shapes") + c.DistinctCount("terminated_outcomes") + c.DistinctCount("exit_paths"),
+		"evaluations":         c.Counter("request_cases") + c.Counter("response_cases") + c.Counter("terminated_cases") + c.Counter("upgrade_cases"),
+		"distinct_nontrivial": c.DistinctCount("request_shapes") + c.DistinctCount("response_shapes") + c.DistinctCount("terminated_outcomes"),
 		"rule":                "request shapes: 7 methods x 12 paths (escaped space, slash, percent, question mark, UTF-8, double slash, trailing slash, root) x 11 queries x 9 header sets x 5 bodies (incl. 1 MiB and a chunked upload of unknown length) - each dimension fully, the method x path x query product with one header set and body in the quick tier, with 3 bodies x 3 header sets in the thorough tier; response shapes: 10 statuses x 7 header sets x 5 bodies (incl. flushed chunks and a 4 KiB error body), full product; 11 gateway-terminated cases; 8 ways a request ends. Distinct = shapes that reached the comparison.",
 		"paths":               names,
 	})
